@@ -28,6 +28,12 @@ pub fn ni(i: usize) -> NodeIndex<FnIdInner> {
 /// would close a cycle are rejected by the graph itself and simply skipped (the
 /// builder's behaviour). `with_acc`: access declarations are symbolic too.
 pub fn sym_user_graph(n: usize, with_acc: bool) -> UserGraph {
+    sym_user_graph_slots(n, with_acc, false)
+}
+
+/// As `sym_user_graph`; `forward_only` restricts the symbolic slots to pairs
+/// (a, b) with a < b (insertion order = a topological order).
+pub fn sym_user_graph_slots(n: usize, with_acc: bool, forward_only: bool) -> UserGraph {
     let mut g = Dag::<Fx, Edge, FnIdInner>::new();
     let mut i = 0;
     while i < N {
@@ -51,7 +57,7 @@ pub fn sym_user_graph(n: usize, with_acc: bool) -> UserGraph {
     while a < N {
         let mut b = 0;
         while b < N {
-            if a != b && a < n && b < n {
+            if a != b && a < n && b < n && (!forward_only || a < b) {
                 let c = nd::below(3);
                 if c != 0 && g.update_edge(ni(a), ni(b), kind_of(c - 1)).is_ok() {
                     user[a][b] = c;
@@ -91,7 +97,11 @@ pub fn longest_chain(user: &[[u8; N]; N]) -> [usize; N] {
 /// B1: `RankCalc::calc` against the longest-chain reference, and the number of
 /// queue pops per function (C13, C18).
 pub fn h_rank(n: usize) {
-    let ug = sym_user_graph(n, false);
+    h_rank_slots(n, false)
+}
+
+pub fn h_rank_slots(n: usize, forward_only: bool) {
+    let ug = sym_user_graph_slots(n, false, forward_only);
     fn_graph::verif_hooks::rank_visits_reset();
     let ranks = fn_graph::verif_hooks::rank_calc(&ug.g);
     let visits = fn_graph::verif_hooks::rank_visits();
@@ -281,42 +291,6 @@ pub fn check_built_edges(
     vcover!(data_edges >= 1 && user_edge_count >= 1, "Data edge added next to a user edge");
 }
 
-#[cfg(kani)]
-mod proofs {
-    use super::*;
-
-    #[kani::proof]
-    #[cfg_attr(any(feature = "n2", feature = "n3"), kani::unwind(6))]
-    #[cfg_attr(feature = "n4", kani::unwind(10))]
-    #[cfg_attr(feature = "n5", kani::unwind(18))]
-    #[kani::stub(std::collections::VecDeque::push_back, crate::stubs::vd_push_back)]
-    #[kani::stub(std::collections::VecDeque::pop_front, crate::stubs::vd_pop_front)]
-    fn b_rank() {
-        h_rank(N);
-    }
-
-    #[kani::proof]
-    #[kani::unwind(8)]
-    #[kani::stub(std::collections::VecDeque::push_back, crate::stubs::vd_push_back)]
-    #[kani::stub(std::collections::VecDeque::pop_front, crate::stubs::vd_pop_front)]
-    fn b_builder() {
-        h_builder(N);
-    }
-
-    #[kani::proof]
-    #[kani::unwind(8)]
-    #[kani::stub(std::collections::VecDeque::push_back, crate::stubs::vd_push_back)]
-    #[kani::stub(std::collections::VecDeque::pop_front, crate::stubs::vd_pop_front)]
-    fn b_builder_batch() {
-        h_builder_batch(N);
-    }
-
-    #[kani::proof]
-    #[kani::unwind(6)]
-    fn b_augment() {
-        h_augment(N);
-    }
-}
 
 /// B0: the builder API. `CALLS` symbolic calls `(kind, from, to)` over `n`
 /// functions - self-edges, repeats and reversed pairs included - checked call
